@@ -431,7 +431,7 @@ def step (sc : Scripts) (w : World) (c : Cmd) : World × List Ev :=
   | .conn => ({ w with nconn := w.nconn + 1 }, [Ev.conn (w.nconn + 1)])
   | .send u data =>
     if u ≥ 1 && u ≤ w.naccepted && !(w.net.get u).eof && w.interactive u &&
-        rawLen ((w.net.get u).rx ++ data) ≤ recvChunk && roundRoom w u then
+        rawLen ((w.net.get u).rx ++ data) ≤ recvChunk && roundRoom w u && !data.contains '!' then   -- (`!` escapes: not modelled)
       ({ w with net := upd w.net u { w.net.get u with rx := (w.net.get u).rx ++ data } }, [Ev.send u data])
     else (w, [])
   | .close u =>
